@@ -683,10 +683,6 @@ def worker(shard, seed, units, n, n_mut):
             _run_case(col, spec, seen, pool, stats)
         core.draw_examples(_case_strategy(name, v, n_mut), n,
                            core.derive_seed(seed, name, v[0], v[1]), fn)
-        # text leaves of all other rows are ASCII by construction
-        if any(isinstance(f.kind, (T.Text, T.AttrName)) for f in row.fields) \
-                and "nonascii" not in row.probes:
-            col.exclude("nonascii: " + T.PROBES["nonascii"], n)
     for k, val in stats.items():
         col.bump(k, val)
     return col
